@@ -27,7 +27,8 @@ def register(R):
         return And(Or(ok(r), failed(r)),
                    Implies(ok(r), And(a.sim_state.vehicles.has(vid),
                                       res.prev_state == a.sim_state.vehicles.get(vid).val().vehicle_state,
-                                      res.next_state.vehicle_id == vid)))
+                                      res.next_state.vehicle_id == vid,
+                                      res.next_state.instance_id != res.prev_state.instance_id)))
     for c in INSTR:
         s = R.spec(INS + c + ".apply_instruction")
         s.opaque = True
@@ -53,27 +54,32 @@ def register(R):
     s.ensures("counts_matched_clock_untouched", ai_post, ("C02", "C09", "C15", "C08"))
     s.no_raise(("C09",))
 
-    RSEQ = SeqTy(IR)
+    RT = TupleTy([IU, IR])
+    RSEQ = SeqTy(RT)
+
+    def res_at(results, k_):
+        """the proposed transition of the k-th (instruction, result) pair"""
+        return at(results, k_)[1]
 
     def results_ok(sim, results, lo):
         """every pending proposed transition starts from its vehicle's current activity; vehicles are distinct"""
         kx, ky = bound(IntT, "k_ro"), bound(IntT, "l_ro")
-        rk = at(results, kx)
+        rk = res_at(results, kx)
         return And(forall([kx], Implies(And(kx >= lo, kx < results.len()), And(
                        sim.vehicles.has(rk.prev_state.vehicle_id),
                        sim.vehicles.get(rk.prev_state.vehicle_id).val().vehicle_state == rk.prev_state,
                        rk.next_state.vehicle_id == rk.prev_state.vehicle_id))),
                    forall([kx, ky], Implies(And(kx >= 0, kx < ky, ky < results.len()),
-                                            at(results, kx).prev_state.vehicle_id != at(results, ky).prev_state.vehicle_id)))
+                                            res_at(results, kx).prev_state.vehicle_id != res_at(results, ky).prev_state.vehicle_id)))
 
     def inv1(v, i, xs, v0):
         # first loop: only applied_instructions changes; the collected proposals are about distinct, current vehicles,
         # none of which is the vehicle of an instruction still to be processed
         kx, j = bound(IntT, "k_i1"), bound(IntT, "j_i1")
-        return And(same_except(v.sim, v0.sim, ["applied_instructions"]),
+        return And(v.sim == v0.sim,
                    results_ok(v.sim, v.results, 0),
                    forall([kx, j], Implies(And(kx >= 0, kx < v.results.len(), j >= i, j < xs.len()),
-                                           at(v.results, kx).prev_state.vehicle_id != at(xs, j).vehicle_id)))
+                                           res_at(v.results, kx).prev_state.vehicle_id != at(xs, j).vehicle_id)))
     R.loop(k, "for", 0, props=("C09",), invariant=inv1, types={"results": RSEQ})
 
     def inv2(v, i, xs, v0):
@@ -81,3 +87,15 @@ def register(R):
                    v.sim.sim_timestep_duration_seconds == v0.sim.sim_timestep_duration_seconds,
                    results_ok(v.sim, xs, i))
     R.loop(k, "for", 1, props=("C09", "C02"), invariant=inv2)
+
+    # ---- C09, stated on one arbitrary instruction (loops unrolled; every instruction class x every activity):
+    # a rejected instruction leaves no trace anywhere in the simulation state
+    I1 = fresh(IU, "the_instruction")
+    s = R.spec(k + "#single", arg_types={"instructions": (I1,)}, ret=SIM)
+    s.requires("wf", WF_PRE).requires("inv02", lambda a: inv02(a.sim))
+
+    def no_trace(a, r):
+        # if the instructed vehicle is exactly as it was (the instruction did not take effect) nothing else changed
+        vid = I1.vehicle_id
+        return Implies(r.vehicles.get(vid) == a.sim.vehicles.get(vid), r == a.sim)
+    s.ensures("rejected_instruction_changes_nothing", no_trace, ("C09",))
